@@ -69,7 +69,7 @@ pub fn plan_admin(w: &World, _k: &Knobs, actor: &mut Actor, l: &Ledger) -> Vec<(
                         fee_tier_index: idx,
                         tick_spacing: sp,
                         initialize_pool_authority: if rng.chance(1, 2) { Pubkey::default() } else { w.payer },
-                        delegated_fee_authority: me,
+                        delegated_fee_authority: if rng.chance(1, 3) { Pubkey::default() } else { me },
                         default_base_fee_rate: edge_u16(rng),
                         filter_period: c.filter_period,
                         decay_period: c.decay_period,
@@ -109,7 +109,7 @@ pub fn plan_admin(w: &World, _k: &Knobs, actor: &mut Actor, l: &Ledger) -> Vec<(
                     );
                 }
                 2 => push(
-                    ix::mk(wa::SetDelegatedFeeAuthority { whirlpools_config: config, adaptive_fee_tier: *tk, fee_authority: me, new_delegated_fee_authority: me }, wi::SetDelegatedFeeAuthority {}),
+                    ix::mk(wa::SetDelegatedFeeAuthority { whirlpools_config: config, adaptive_fee_tier: *tk, fee_authority: me, new_delegated_fee_authority: if rng.chance(1, 3) { Pubkey::default() } else { me } }, wi::SetDelegatedFeeAuthority {}),
                     "set_delegated_fee_authority",
                 ),
                 _ => push(
